@@ -242,10 +242,9 @@ def literal_phase(chk, gb, cases, outs, stats):
                 if m2.group(1) != '1' or m2.group(2) != '1':
                     corr.append('the corpus is outside the hypotheses of C20_default_encoding_conforms (wf_schema (proj S)=%s, '
                                 'elems_ok (proj S)=%s)' % (m2.group(1), m2.group(2)))
-            # documents of repaired shapes (gengen.repair_docs) are modelled and compared, but stay outside the domain of the
-            # general theorems (LitClass still counts an Arc target / a container-const reference as a class)
-            repaired_in_corpus = any(t.split('.')[0] in REPAIR_DOC_NAMES for t in tys)
-            if m.group(2) != '1' or (m.group(1) != '1' and not repaired_in_corpus):
+            # the class predicate follows the source as it is (a repaired shape is no class): the whole corpus, the documents of
+            # repaired shapes (gengen.repair_docs) included, is inside the domain of the general theorems
+            if m.group(2) != '1' or m.group(1) != '1':
                 corr.append('the corpus is outside the hypotheses of C20_literal_meaning / C20_default_is_idl although the '
                             'generator ran (class_free_schema=%s lits_typed=%s)' % (m.group(1), m.group(2)))
     # ---- per field: Python meaning, emitted Default, model
@@ -275,8 +274,6 @@ def literal_phase(chk, gb, cases, outs, stats):
             continue
         if mm.group(4) == '1' and mm.group(5) == 'none':
             stats['in_proven_domain'] += 1
-        elif tname.split('.')[0] in REPAIR_DOC_NAMES and mm.group(4) == '1':
-            stats['validated_outside_proven_domain'] = stats.get('validated_outside_proven_domain', 0) + 1
         else:
             corr.append('%s.%s = %s is outside the domain of C20_literal_meaning (well-typed %s, class %s) although the generator '
                         'produced code' % (tname, f['name'], gengen.lit_idl(f['lit'])[:60], mm.group(4), mm.group(5)))
@@ -379,6 +376,8 @@ def repair_phase(chk, gb, stats):
             continue                      # the document is part of the corpus: compared field by field above
         stats['repair_documents_open'] += 1
         classes = gengen.repair_doc_class(doc)
+        pn = gengen.REPAIR_PATCH.get(name, name)
+        patch = 'fam/gen/patches/%s.diff' % pn if pn else None
         idl = gengen.doc_idl(doc)
         d = tempfile.mkdtemp(prefix='c20_probe_', dir=gb.out_dir)
         try:
@@ -408,7 +407,7 @@ def repair_phase(chk, gb, stats):
                     corr.append('the generator panics on document %s (%s) but the literal model predicts no panic' % (doc.name, detail[:120]))
                 chk.violation('C14/C20: the generator panics on a well-typed default (%s): %s' % (name, detail),
                               dict(kind='generator-panic', finding_class=name, document=doc.name, idl=idl, generator_output=log[-1500:],
-                                   proposed_patch='fam/gen/patches/%s.diff' % name), cls=name)
+                                   proposed_patch=patch), cls=name)
             else:
                 corr.append('document %s (class %s) no longer panics the generator although the repair marker of %s is not in context.rs'
                             % (doc.name, name, name))
